@@ -81,6 +81,7 @@ func c07Gen(rt *rapid.T) c07Case {
 	}
 	n := rapid.IntRange(3, 45).Draw(rt, "nops")
 	structured := rapid.IntRange(0, 3).Draw(rt, "structured") > 0
+	twoTopics := false
 	if structured {
 		// construction: populate the topic, give peers scores, join, then mostly operations that meet a populated mesh
 		t0 := 0
@@ -94,6 +95,13 @@ func c07Gen(rt *rapid.T) c07Case {
 			c.Ops = append(c.Ops, c07Op{Op: "fanoutpub", T: t0})
 		}
 		c.Ops = append(c.Ops, c07Op{Op: "join", T: t0, N: rapid.IntRange(0, 1).Draw(rt, "jk")})
+		// two populated topics sharing their peers: one heartbeat can graft a peer on one topic and prune it on the other
+		if c.Topics == 2 && rapid.Bool().Draw(rt, "twoTopics") {
+			twoTopics = true
+			c.Ops = append(c.Ops, c07Op{Op: "bulk", P: 1, T: 1, N: npeers, Proto: 2, Out: rapid.Bool().Draw(rt, "bout2")})
+			c.Ops = append(c.Ops, c07Op{Op: "join", T: 1})
+			c.Ops = append(c.Ops, c07Op{Op: "graftmany", P: 1, T: rapid.IntRange(0, 1).Draw(rt, "overfull"), N: npeers})
+		}
 	}
 	for i := 0; i < n; i++ {
 		var op c07Op
@@ -102,7 +110,9 @@ func c07Gen(rt *rapid.T) c07Case {
 		kinds := []string{"arrive+sub", "arrive+sub", "arrive+sub", "hb", "hb", "hb", "join", "graft", "prune", "score", "adv", "depart", "unsub", "leave", "sub", "arrive", "adddirect", "rmdirect", "fanoutpub", "bulk"}
 		if structured {
 			kinds = []string{"hb", "hb", "hb", "hb", "graftmany", "graftmany", "graft", "graft", "score", "score", "prune", "adv", "adv", "depart", "arrive+sub", "unsub", "leave", "join", "adddirect", "rmdirect", "fanoutpub"}
-			if rapid.IntRange(0, 3).Draw(rt, "t0") > 0 {
+			if twoTopics {
+				kinds = append(kinds, "prune", "prune", "graftmany", "hb")
+			} else if rapid.IntRange(0, 3).Draw(rt, "t0") > 0 {
 				op.T = 0
 			}
 		}
